@@ -480,7 +480,7 @@ pub fn act(w: &mut World, op: &Op) -> bool {
 }
 
 /// Advances the paused clock in slices so that emitted datagrams / events get usable time stamps.
-async fn advance(w: &mut World, d: Duration) {
+pub async fn advance(w: &mut World, d: Duration) {
     let mut left = d;
     let slice = Duration::from_millis(50);
     while left > Duration::ZERO {
